@@ -18,6 +18,7 @@ pub fn runs(property: &str, tier: Tier) -> u64 {
         "C01" | "C02" | "C03" | "C04" | "C05" | "C06" | "C08" | "C09"
         | "C10" | "C39" | "C31" | "C22" | "C34" => (480, 12000),
         "C40" => (320, 8000),
+        "C41" => (480, 12000),
         "C38" => (800, 20000),
         "C07" => (320, 6000),
         "C12" | "C13" | "C14" => (2400, 100000),
@@ -143,6 +144,19 @@ pub fn enga_profile(property: &str, tier: Tier) -> Option<Profile> {
             p.quiet_pct = 10;
             p.steps = if tier == Tier::Thorough { 14 } else { 8 };
         }
+        "C41" => {
+            // A mostly healthy history so that both the affected subtree
+            // and the rest have payload when the fault is placed.
+            only(&mut p, &[
+                (AddObj, 10), (RemoveObj, 2), (Touch, 4), (AddChild, 6),
+                (AspaChange, 2), (SigFaultObj, 1), (MissingFile, 1),
+                (MftStale, 1), (RsyncFail, 1), (RrdpFail, 1), (MoveCa, 1),
+            ]);
+            p.differential = true;
+            p.big_jumps = false;
+            p.gen.shared_repos = tier == Tier::Thorough;
+            p.steps = if tier == Tier::Thorough { 3 } else { 2 };
+        }
         "store-fault" => {
             only(&mut p, &[
                 (AddObj, 8), (RemoveObj, 3), (Touch, 5), (AddChild, 4),
@@ -236,6 +250,15 @@ pub fn describe(property: &str) -> Option<serde_json::Value> {
                       min-refresh) when min-refresh is set and the data set \
                       expires before t + refresh; refresh in {1,10,600,86400}, \
                       min-refresh in {unset,1,60,600,7200}",
+            "C41" => "differential pair: after a generated world history the \
+                      last run is executed twice from the same cache, without \
+                      and with a fault in one repository (unreachable over \
+                      RRDP and/or rsync, corrupt local archive, bad objects, \
+                      manifests or CRLs, stale or premature manifests); every \
+                      difference between the two results must be payload \
+                      that some CA of that repository or a descendant ever \
+                      published (or, under reject, a VRP overlapping their \
+                      resources); the run with the fault must not fail",
             "C40" => "directory tree before/after every successful run: no \
                       stored point with an unexpired manifest certificate \
                       removed; no rsync module / RRDP archive removed that a \
